@@ -11,6 +11,11 @@ use super::{Code, VarInfo};
 
 // spell-checker:dictionaries dddmp
 
+/// Upper bound for pre-allocations based on counts read from the (untrusted)
+/// input. The vectors still grow on demand, but a corrupted count cannot
+/// trigger a capacity overflow or an allocation failure.
+const MAX_PREALLOC: usize = 1 << 16;
+
 /// Helper function to return a parse error
 fn err<T>(msg: impl Into<Box<dyn std::error::Error + Send + Sync>>) -> io::Result<T> {
     Err(io::Error::new(io::ErrorKind::InvalidData, msg))
@@ -145,7 +150,7 @@ impl DumpHeader {
                 b".nroots" => nroots = parse_single_usize(value, line_no)?,
                 b".rootids" => {
                     header.rootids.clear();
-                    header.rootids.reserve(nroots);
+                    header.rootids.reserve(nroots.min(MAX_PREALLOC));
                     parse_edge_list(value, &mut header.rootids, line_no)?;
                 }
                 b".rootnames" => header.rootnames = parse_str_list(value, nroots),
@@ -578,7 +583,10 @@ where
     M::InnerNode: HasLevel,
     M::Terminal: ParseTagged<M::EdgeTag>,
 {
-    let mut nodes = EdgeVecDropGuard::new(manager, Vec::with_capacity(header.nnodes));
+    let mut nodes = EdgeVecDropGuard::new(
+        manager,
+        Vec::with_capacity(header.nnodes.min(MAX_PREALLOC)),
+    );
     let mut line = Vec::new();
     let mut children = Vec::with_capacity(M::InnerNode::ARITY);
     for node_id in 1..=header.nnodes {
@@ -732,7 +740,10 @@ where
         Ok((id - 1) as usize)
     }
 
-    let mut nodes = EdgeVecDropGuard::new(manager, Vec::with_capacity(header.nnodes));
+    let mut nodes = EdgeVecDropGuard::new(
+        manager,
+        Vec::with_capacity(header.nnodes.min(MAX_PREALLOC)),
+    );
     for node_id in 1..=header.nnodes {
         let node_code = read_unescape(&mut input)?;
         let var_code = Code::from((node_code >> 5) & 0b11);
@@ -878,7 +889,7 @@ const fn trim(s: &[u8]) -> &[u8] {
 ///
 /// All strings in the returned vector are guaranteed to be non-empty.
 fn parse_str_list(input: &[u8], capacity: usize) -> Vec<String> {
-    let mut res = Vec::with_capacity(capacity);
+    let mut res = Vec::with_capacity(capacity.min(MAX_PREALLOC));
     let mut start = 0;
     for pos in memchr::memchr2_iter(b' ', b'\t', input).chain([input.len()]) {
         // skip empty strings
@@ -985,7 +996,7 @@ parse_single_unsigned!(parse_single_usize, usize);
 
 /// Parse a space (or tab) separated list of integers
 fn parse_u32_list(input: &[u8], capacity: usize, line_no: usize) -> io::Result<Vec<u32>> {
-    let mut res = Vec::with_capacity(capacity);
+    let mut res = Vec::with_capacity(capacity.min(MAX_PREALLOC));
     let mut i = 0u32;
     let mut num = false;
 
